@@ -25,7 +25,7 @@ func init() {
 		Run:         runC08,
 	}
 	Registry["C09"] = Set{
-		Explanation: "Decides structural clauses of the restart intensity limit: I1 units — the window test subtracts two values of the same clock unit and compares with the period multiplied by that unit's per-second factor; I2 comparison normal form — 'exceeded' is returned true only under len(restarts) > intensity (or an equivalent form) evaluated after the pruning loop, the early 'not exceeded' return is under len <= intensity, the pruning drops only from the old end and only entries whose age is strictly greater than the period, and the current restart is recorded before counting; I3 plumbing — each of the three callers passes its own restart list, its Period and its Intensity in that order, stores the returned list back, starts the child on the not-exceeded edge and on the exceeded edge terminates the children with ErrSupervisorRestartsExceeded. Added while probing: a 'not exceeded' return is dominated by len(restarts) <= intensity, and the count is never compared with intensity±k.",
+		Explanation: "Decides structural clauses of the restart intensity limit: I1 units — the window test subtracts two values of the same clock unit and compares with the period multiplied by that unit's per-second factor; I2 comparison normal form — 'exceeded' is returned true only under len(restarts) > intensity (or an equivalent form) evaluated after the pruning loop, the early 'not exceeded' return is under len <= intensity, the pruning drops only from the old end and only entries whose age is strictly greater than the period, and the current restart is recorded before counting; I3 plumbing — each of the three callers passes its own restart list, its Period and its Intensity in that order, stores the returned list back, starts the child on the not-exceeded edge and on the exceeded edge terminates the children with ErrSupervisorRestartsExceeded. Added while probing: a 'not exceeded' return is dominated by len(restarts) <= intensity, and the count is never compared with intensity±k. I3 also: on the exceeded edge the recorded shutdown reason is ErrSupervisorRestartsExceeded.",
 		NotDecided: []string{
 			"the behaviour over timing patterns (runtime clock values)",
 			"clock jumps",
@@ -1018,6 +1018,51 @@ func runC09(p *load.Program, r *core.Report) {
 			if h := reaches(ts, func(in ssa.Instruction) bool { return isReturn(in) }, isStart); h != nil {
 				probs = append(probs, "on the exceeded edge the child is still started")
 			}
+			// the reason the supervisor will terminate with once its children are gone (shutdownReason)
+			// is the 'exceeded' reason as well, not the child's own reason
+			eachInstr(m, func(in ssa.Instruction) {
+				st, ok := in.(*ssa.Store)
+				if !ok {
+					return
+				}
+				if _, fld := fieldOwner(st.Addr); fld != "shutdownReason" {
+					return
+				}
+				if !edgesDominate(t, st) && reaches(ts, nil, func(i2 ssa.Instruction) bool { return i2 == ssa.Instruction(st) }) == nil {
+					return
+				}
+				if !edgesDominate(t, st) {
+					// a store shared with other causes (merge block): its value must carry the exceeded reason on this path
+					o := reasonOrigin(st.Val, 0)
+					if ld, okl := st.Val.(*ssa.UnOp); okl && ld.Op == token.MUL {
+						if fa, okf := ld.X.(*ssa.FieldAddr); okf {
+							if cell, okc := fa.X.(*ssa.Alloc); okc {
+								// a field of a local struct (the action being built): union over the stores to that field
+								var os []string
+								for _, rf := range *cell.Referrers() {
+									fa2, ok2 := rf.(*ssa.FieldAddr)
+									if !ok2 || fa2.Field != fa.Field {
+										continue
+									}
+									for _, r2 := range *fa2.Referrers() {
+										if s2, ok3 := r2.(*ssa.Store); ok3 && s2.Addr == ssa.Value(fa2) {
+											os = append(os, reasonOrigin(s2.Val, 0))
+										}
+									}
+								}
+								o = strings.Join(os, "+")
+							}
+						}
+					}
+					if !strings.Contains(o, "global:ErrSupervisorRestartsExceeded") {
+						probs = append(probs, "the shutdown reason recorded after exceeding the intensity ("+o+") cannot be ErrSupervisorRestartsExceeded")
+					}
+					return
+				}
+				if o := reasonOrigin(st.Val, 0); o != "global:ErrSupervisorRestartsExceeded" {
+					probs = append(probs, "on the exceeded edge the shutdown reason is recorded as "+o+" at "+p.Pos(st.Pos())+": when other children are still running the supervisor terminates with the child's reason instead of ErrSupervisorRestartsExceeded")
+				}
+			})
 			if h := reaches(fs, isStart, isReturn); h != nil && !strings.Contains(mf, "ARFO") {
 				probs = append(probs, "on the not-exceeded edge a return is reachable without a start action: the child is not restarted although the limit allows it")
 			}
